@@ -1,7 +1,7 @@
 (* Driver.v -- textual report of the model on one program; evaluated either by
    vm_compute inside coqc (kernel route) or by the extracted OCaml (bulk route). *)
 From Coq Require Import ZArith List Bool String.
-From PS.model Require Import Smt Enc Ind Prog Solution.
+From PS.model Require Import Smt Enc Ind Prog Solution Export Gantt.
 Import ListNotations.
 Open Scope string_scope.
 
@@ -97,4 +97,30 @@ Definition setup_report (c : solvercfg) (ops : list op) : list string :=
   | RunOk None => ["RUN ok"; "NOPROBLEM"]
   | RunErr i => ["RUN err " ++ show_nat i]
   | RunUnsup i => ["RUN unsup " ++ show_nat i]
+  end.
+
+(* exports (O6) and Gantt geometry (O7) of the same solution *)
+Definition show_cellop (sheet : string) (c : cellop) : string :=
+  "XLS " ++ sheet ++ " " ++ show_nat (ce_row c) ++ " " ++ show_Z (ce_c1 c) ++ " " ++ show_Z (ce_c2 c) ++ " " ++ ce_text c.
+Definition show_gbar (m : string) (b : gbar) : string :=
+  "GANTT " ++ m ++ " " ++ show_nat (gb_row b) ++ " " ++ show_Z (gb_x20 b) ++ " " ++ show_Z (gb_w20 b) ++ " "
+  ++ show_Z (gb_tx20 b) ++ " " ++ gb_text b.
+Definition export_report (s : solution) : list string :=
+  map (fun r => "DF " ++ show_task (df_name r) ++ " [" ++ join "," (df_resources r) ++ "] " ++ show_Z (df_start r) ++ " "
+                ++ show_Z (df_end r) ++ " " ++ show_Z (df_duration r) ++ " " ++ show_bool (df_scheduled r)) (df_rows s)
+  ++ map (show_cellop "R") (resource_sheet s) ++ map (show_cellop "T") (task_sheet s)
+  ++ map (fun '(i, k, v) => "XLS I " ++ show_nat i ++ " " ++ k ++ " = " ++ show_Z v) (indicator_sheet s).
+Definition gantt_report (s : solution) : list string :=
+  map (show_gbar "Resource") (gantt_bars s GResource) ++ map (show_gbar "Task") (gantt_bars s GTask)
+  ++ map (fun l => "LABEL Resource " ++ l) (gantt_labels s GResource)
+  ++ map (fun l => "LABEL Task " ++ l) (gantt_labels s GTask)
+  ++ flat_map (fun b => map (fun '(x0, x1, y) => "STEP B" ++ show_nat (bs_id b) ++ " " ++ show_Z x0 ++ " " ++ show_Z x1 ++ " " ++ show_Z y)
+                            (buffer_steps s b)) (so_buffers s).
+Definition full_solution_of (ops : list op) (c : solvercfg) (ivals : list (string * Z)) (bvals : list (string * bool))
+           (delta t0 : option Z) : list string :=
+  match run ops with
+  | RunOk (Some st) =>
+      let s := build_solution c st (env_of ivals bvals) delta t0 in
+      solution_report s ++ export_report s ++ gantt_report s
+  | _ => ["NORUN"]
   end.
